@@ -2,6 +2,7 @@
 # re-run the registered quick check against every stored seeded change on the current tree (separate worktree)
 cd /verif
 HEAD=$(git -C /repo rev-parse HEAD)
+[ -d /tmp/wt_kill ] || git -C /repo worktree add --detach /tmp/wt_kill HEAD -q      # scratch worktree, removed at the end
 for d in seeded/*/; do
   id=$(basename $d); prop=${id%%_*}
   git -C /tmp/wt_kill checkout -q --detach $HEAD; git -C /tmp/wt_kill checkout -q -- .; git -C /tmp/wt_kill clean -fdq
@@ -15,3 +16,4 @@ for d in seeded/*/; do
   git checkout -q -- evidence replays 2>/dev/null; git clean -fdq replays 2>/dev/null
 done
 git -C /tmp/wt_kill checkout -q -- .
+git -C /repo worktree remove --force /tmp/wt_kill
